@@ -53,7 +53,7 @@ CHECKS = {
             "Only the two documents named by the property are parsed; the plain-text /status page has no grammar.",
             "deterministic simulation: hostile peer output injection, document grammar oracles", "§5 C22"),
     "C29": ("B (collector level): real Collector::start().repository() with simulated RRDP server and fake rsync", "fault_enumeration",
-            "The full product fallback policy x RRDP outcome {updated, current, stale, unavailable} x rrdp on/off x rsync on/off x CA with/without rpkiNotify = 96 cells, each executed once; outcomes are produced (failing server with a copy made 10 s or 10 days earlier on the simulated clock, or no copy); observed: fake-rsync invocation for the CA's module and the kind of repository handed out; oracle: the table in the property. Exhaustive. Engine A additionally compares the set of rsync modules and RRDP repositories used in every run with the model.",
+            "The full product fallback policy x RRDP outcome {updated, current, stale, unavailable} x rrdp on/off x rsync on/off x CA with/without rpkiNotify, and for current/stale copies whether the copy was last confirmed by the 200 answer that created it or by a later 304 answer = 144 cells, each executed once; outcomes are produced (failing server with a copy confirmed 10 s or 10 days earlier on the simulated clock, or no copy); observed: fake-rsync invocation for the CA's module and the kind of repository handed out; oracle: the table in the property. Exhaustive. Engine A additionally compares the set of rsync modules and RRDP repositories used in every run with the model.",
             "Copy expiry relies on best-before lying in [refresh, max(2*refresh, fallback-time)).",
             "deterministic simulation: exhaustive enumeration of the configuration x fault-outcome table", "§5 C29"),
     "C31": (ENGINE_A, "exploration",
@@ -72,6 +72,10 @@ CHECKS = {
             "Snapshot refresh time compared with the model's minimum expiry over the chain of every contributing object (upper bound only).",
             "Model computes the bound from generator ground truth.",
             "deterministic simulation: refresh-deadline upper-bound oracle", "§5 C39"),
+    "C40": (ENGINE_A, "exploration",
+            "Multi-step worlds in which CAs move between repositories, are dropped, expire or fail to update; after every successful run with cleanup the cache listing (stored points, rsync module directories, RRDP archives) must still contain every stored point whose manifest EE certificate has not expired and every collector copy used by a retained point, and a following offline run reproduces the model's result; a run made to fail by a provoked corrupt RRDP archive must remove nothing that is still needed.",
+            "Upper direction only for what must be kept; that unneeded data is eventually removed is probed, not required. The failed-run oracle is restricted to unexpired points and their copies.",
+            "deterministic simulation: world histories with moving/expiring CAs and provoked failed runs, keep-set oracle from the reference model", "§5 C40"),
 }
 
 ENGINE_C = "C (history): real SharedHistory driven through Server::process_once, queried through PayloadSource and the real HTTP dispatcher"
@@ -89,8 +93,8 @@ CHECKS.update({
             "Retention read through the verif_retained hook.",
             "deterministic simulation: run-outcome sequences vs counter model", "§5 C14"),
     "C33": (ENGINE_C, "exploration",
-            "Histories interleaving successful runs with forced retryable/fatal failures; everything a client can observe (ready, session, serial, data, retained, ETag, Last-Modified, created, pending notify subscriber) is identical before and after a failed update cycle.",
-            "Failures are forced at the start of ValidationReport::process (hook H5).",
+            "Histories interleaving successful runs with forced retryable/fatal failures; everything a client can observe (ready, session, serial, data, retained, ETag, Last-Modified, created, pending notify subscriber) is identical before and after a failed update cycle. One run in sixteen goes through Engine A instead: after a generated world history served through the real server update cycle, a final run meets a failing store (a stored trust-anchor, publication-point or status file that cannot be read or written, or an unusable tmp directory); the run must fail and leave session, serial, data set and the /json document unchanged, or succeed with exactly the model's fault-free result.",
+            "Forced failures happen at the start of ValidationReport::process (hook H5); mid-run failures are the store faults of Engine A (fatal) and, under C40, corrupt RRDP archives (retryable).",
             "deterministic simulation: forced run failures, before/after observation equality", "§5 C33"),
 })
 
@@ -101,7 +105,7 @@ CHECKS.update({
             "Sequentially consistent interleavings at lock operations and hook points only; RTR wire path not included.",
             "deterministic simulation: seeded schedule exploration (shuttle random + PCT)", "§5 C15"),
     "C16": (ENGINE_D, "exploration",
-            "Shuttle schedules of an updater installing new data against clients sending conditional requests with the previous version's validators (ETag, date, both), including the instant between installing data and marking the update done and same-second clocks; a 304 must carry the ETag of the version the validators belong to. Sequential histories are covered as a by-product of Engine C.",
+            "Shuttle schedules of an updater installing new data against clients sending conditional requests with the previous version's validators (ETag, date, both), including the instant between installing data and marking the update done and up to three further versions within the same simulated second; clients learn validators from whatever version is served and revalidate; a 304 must carry the ETag of the version the validators belong to. Sequential histories are covered as a by-product of Engine C.",
             "Scheduling points: history lock operations.",
             "deterministic simulation: seeded schedule exploration (shuttle random + PCT)", "§5 C16"),
     "C17": (ENGINE_D, "exploration",
@@ -113,7 +117,7 @@ CHECKS.update({
             "Connection accounting through RtrClientMetrics as rtr.rs does; real sockets not involved.",
             "deterministic simulation: seeded schedule exploration (shuttle random + PCT)", "§5 C36"),
     "C37": (ENGINE_D, "exploration",
-            "Shuttle schedules of 2-3 tasks (standing for validation workers) calling the real collector Run::repository for CAs in the same and different rsync modules / RRDP repositories; fetch count per module/repository <= 1 (fake rsync log, simulated HTTP log) and data readable when repository() returns.",
+            "Shuttle schedules of 2-3 tasks (standing for validation workers) calling the real collector Run::repository for CAs in the same and different rsync modules / RRDP repositories, the same module spelled with differing host-name case; fetch count per module/repository <= 1 (fake rsync log, simulated HTTP log) and data readable when repository() returns.",
             "Fake rsync child process and simulated HTTP are atomic steps for the scheduler.",
             "deterministic simulation: seeded schedule exploration (shuttle random + PCT)", "§5 C37"),
 })
@@ -126,7 +130,7 @@ CHECKS.update({
             "Oracle per DESIGN appendix B; rsync disabled so that not-updated means no data handed out; HTTP transport simulated.",
             "deterministic simulation: server history + peer fault injection, snapshot-equality oracle", "§5 C25"),
     "C23": ("A (world) in crash mode: kill points in the store, status file, TA store, cleanup and RRDP archive writes", "fault_enumeration",
-            "In generated worlds the third validation run is re-executed once per kill point from the same pre-run cache (store create/truncate/header/persist/reject/status/TA/cleanup steps and RRDP archive writes; all in thorough, a seeded sample in quick); the directory copy at the kill point is the crash image. Per distinct image: every stored point is absent, header-only or byte-for-byte its previous or new complete version; offline run succeeds; online run (one retry after a retryable failure allowed) gives the uninterrupted run's data set (for kills during cleanup: item-wise between this run's and the following run's result); store status readable.",
+            "In generated worlds the third validation run is re-executed once per kill point from the same pre-run cache (store create/truncate/header/persist/reject/status/TA/cleanup steps, between the length and the payload of every URI in a stored point header, and RRDP archive writes; all in thorough, a seeded sample in quick); the directory copy at the kill point is the crash image. Per distinct image: every stored point is absent, header-only or byte-for-byte its previous or new complete version; offline run succeeds; online run (one retry after a retryable failure allowed) gives the uninterrupted run's data set (for kills during cleanup: item-wise between this run's and the following run's result); store status readable.",
             "Crash = process kill; buffered temp-file writes coincide; tearing inside one write call not modelled; worlds sampled, kill points of each explored run enumerated. Commands as subprocesses are covered under C32's engine only for the retry logic.",
             "deterministic simulation: kill-point enumeration with crash images over the real Engine/Store", "§5 C23"),
     "C24": ("B (rrdp) in crash mode: kill points in archive writes, truncation and snapshot replacement", "fault_enumeration",
